@@ -7,7 +7,8 @@
    (notation ST: the modes of the document [mode] give the collector's define_mode / duplicate_mode). *)
 From Coq Require Import ZArith Lia.
 From CL Require Import Base.StrLemmas Model.Lexer Model.Parser Model.Printer Model.Denote Model.EventBridge.
-From CL Require Import Proofs.RoundTrip.
+From CL Require Import Proofs.RoundTrip Proofs.RoundTripSpans.
+From CL Require Proofs.EditTextFrame Proofs.EditTextSim.
 From CL Require Model.Events Model.Analysis.
 From CL Require Proofs.ParserShape Proofs.AnalysisProofs.
 Open Scope N_scope.
@@ -300,6 +301,10 @@ Proof.
   destruct (c_qty cw) as [[v sp]|], (denote_cqty (cs_body c)) as [[[v' l'] u']|]; cbn [option_map fst snd] in Hq |- *; try discriminate; [|reflexivity].
   injection Hq as Hq Hl. rewrite (value_info_abstract v u'). unfold qvproj. cbn [fst snd]. rewrite Hq, Hl. reflexivity.
 Qed.
+
+(* the copy of a printed component without its comments is the component without its comment tokens *)
+Definition strips (d : list block) : Prop :=
+  forall c, In c (flat_map block_comps d) -> A.strip_comments (unlex (print_comp c)) = written (print_comp c).
 
 (* the collector's two mode fields for the modes of the document *)
 Definition dup_of (b : bool) : A.duplicate_mode := if b then A.DupReference else A.DupNew.
@@ -655,19 +660,21 @@ Section Run.
     - destruct (str_eqb (trim (toks_text v)) w_all || str_eqb (trim (toks_text v)) w_default); [reflexivity|].
       destruct (str_eqb (trim (toks_text v)) w_components || str_eqb (trim (toks_text v)) w_ingredients); [reflexivity|].
       destruct (str_eqb (trim (toks_text v)) w_steps); [reflexivity|].
-      destruct (str_eqb (trim (toks_text v)) w_text); discriminate.
+      destruct (str_eqb (trim (toks_text v)) w_text); [reflexivity|discriminate].
     - destruct (str_eqb (removelast (tl (clean (toks_text key)))) w_duplicate); [|reflexivity].
       destruct (str_eqb (trim (toks_text v)) w_new || str_eqb (trim (toks_text v)) w_default); [reflexivity|].
       destruct (str_eqb (trim (toks_text v)) w_reference || str_eqb (trim (toks_text v)) w_ref); [reflexivity|]. discriminate.
   Qed.
 
-  (* the class never enters text mode *)
+  (* a `>>` entry that does not switch to text mode keeps the document out of it *)
+  Definition to_text (b : block) : bool :=
+    A.x_modes x && match block_config b with Some (CfDefine A.DMText) => true | _ => false end.
   Lemma next_mode_no_text m b :
-    in_text_mode m = false -> config_ok x b = true -> in_text_mode (next_mode (A.x_modes x) m b) = false.
+    in_text_mode m = false -> to_text b = false -> in_text_mode (next_mode (A.x_modes x) m b) = false.
   Proof.
-    unfold next_mode, config_ok. intros Hm Hok. destruct (A.x_modes x); [|exact Hm]. cbn [negb orb] in Hok.
+    unfold next_mode, to_text. intros Hm Hok. destruct (A.x_modes x); [|exact Hm]. cbn [andb] in Hok.
     destruct (block_config b) as [[d|r| |]|]; try exact Hm.
-    - unfold in_text_mode. cbn [md_define]. destruct d; try reflexivity. discriminate.
+    unfold in_text_mode. cbn [md_define]. destruct d; try reflexivity. discriminate.
   Qed.
 
   Lemma timer_sim m secs cur igs cws tms inl blk cnt err t c :
@@ -925,6 +932,40 @@ Section Run.
         cbn [tlines_text]. rewrite <- !app_assoc. reflexivity.
   Qed.
 
+  (* ---------------------------------------------------------------- a step block in text mode *)
+  Lemma run_items_text m items : forall evs acc secs cur igs cws tms inl cnt err,
+    in_text_mode m = true ->
+    map ev_proj evs = map denote_item items ->
+    Forall2 (src_ok input) evs (map item_src items) ->
+    (forall c, In c (item_comps items) -> A.strip_comments (unlex (print_comp c)) = written (print_comp c)) ->
+    runF (ST m secs cur igs cws tms inl (Some (A.BText acc)) cnt err) (abstract_events evs)
+    = Done (ST m secs cur igs cws tms inl (Some (A.BText (acc ++ items_written items))) cnt err).
+  Proof.
+    induction items as [|it items IH]; intros evs acc secs cur igs cws tms inl cnt err Hm Hev Hsrc Hstrip.
+    - destruct evs; [|discriminate]. cbn. rewrite app_nil_r. reflexivity.
+    - destruct evs as [|e evs]; [discriminate|]. cbn [map] in Hev, Hsrc. injection Hev as He Hev.
+      inversion Hsrc as [|? ? ? ? Hs1 Hs2]; subst.
+      unfold abstract_events. cbn [map A.run]. fold (abstract_events evs).
+      assert (Hw : items_written (it :: items)
+                   = (match it with IText t => toks_text t | IComp c => written (print_comp c) end) ++ items_written items) by reflexivity.
+      rewrite Hw, app_assoc.
+      destruct it as [t|c].
+      + cbn [denote_item] in He. destruct (proj_text e _ He) as (tx & -> & Htx).
+        cbn [abstract_event]. unfold A.step at 1. aproj. unfold A.in_text. rewrite ParserShape.text_str_abstract, Htx. asetters. cbn [obind].
+        apply IH; auto.
+      + cbn [denote_item] in He. cbn [item_src] in Hs1. destruct Hs1 as (sp & Hsp & Hsl).
+        assert (Hc0 : A.strip_comments (unlex (print_comp c)) = written (print_comp c)).
+        { apply Hstrip. cbn [item_comps flat_map app]. left. reflexivity. }
+        assert (Hst : stepF (ST m secs cur igs cws tms inl (Some (A.BText acc)) cnt err) (abstract_event e)
+                      = Done (ST m secs cur igs cws tms inl (Some (A.BText (acc ++ written (print_comp c)))) cnt err)).
+        { unfold denote_comp in He.
+          destruct e; try (destruct (cs_kind c); discriminate He); cbn [EditTextFrame.comp_span] in Hsp; injection Hsp as Hsp;
+            cbn [abstract_event]; unfold A.step; aproj; unfold A.in_text; aproj; rewrite dm_text, Hm; cbn [negb];
+            cbn [E.pi_span E.pc_span E.pt_span]; rewrite Hsp, Hsl; unfold A.comp_src; cbn [A.cfgF A.text_raw]; rewrite Hc0; reflexivity. }
+        rewrite Hst. cbn [obind]. apply IH; auto;
+        intros c' Hc'; apply Hstrip; cbn [item_comps flat_map app]; right; exact Hc'.
+  Qed.
+
   (* ---------------------------------------------------------------- documents *)
   Definition block_ne (b : block) : Prop :=
     match b with BkStep items => items <> [] | BkText ls => tlines_text ls <> [] | _ => True end.
@@ -991,7 +1032,13 @@ Section Run.
     | BkStep _ =>
         (in_components m = true -> linked (next_ctx m k b) secs {| A.sec_name := name; A.sec_content := content |}) /\
         (in_components m = false -> in_text_mode m = false ->
-         forall st, linked (next_ctx m k b) secs {| A.sec_name := name; A.sec_content := content ++ [A.CStep st] |})
+         forall st, linked (next_ctx m k b) secs {| A.sec_name := name; A.sec_content := content ++ [A.CStep st] |}) /\
+        (in_text_mode m = true ->
+         match b with
+         | BkStep items => linked (next_ctx m k b) secs
+                             {| A.sec_name := name; A.sec_content := content ++ text_content (items_written items) |}
+         | _ => True
+         end)
     | BkText _ => forall t, linked (next_ctx m k b) secs {| A.sec_name := name; A.sec_content := content ++ [A.CText t] |}
     end.
   Proof.
@@ -999,19 +1046,28 @@ Section Run.
     - unfold linked, next_ctx. cbn [ic_kinds ic_nsecs ic_named A.sec_name A.sec_content map E.is_some]. repeat split.
       rewrite app_length, H1, H2, H3. unfold close_section.
       destruct name; cbn [E.is_some negb andb length]; [lia|]. destruct content; cbn [map is_nil length]; lia.
-    - split.
+    - split; [|split].
       + unfold in_components, next_ctx. destruct (md_define m); try discriminate. intros _. repeat split; assumption.
       + unfold in_components, in_text_mode, next_ctx. destruct (md_define m); try discriminate; intros _ _ st;
           unfold linked; cbn [ic_kinds ic_nsecs ic_named A.sec_name A.sec_content]; rewrite map_app, H1; auto.
+      + unfold in_text_mode, next_ctx. destruct (md_define m); try discriminate. intros _.
+        unfold linked. cbn [ic_kinds ic_nsecs ic_named A.sec_name A.sec_content]. rewrite map_app, H1.
+        repeat split; auto. f_equal. unfold text_content. destruct (is_nil (items_written items)); reflexivity.
     - intro t. unfold linked, next_ctx. cbn [ic_kinds ic_nsecs ic_named A.sec_name A.sec_content]. rewrite map_app, H1. auto.
   Qed.
 
   Local Notation modes := (A.x_modes x).
 
+  Lemma block_srcs_length b : length (block_srcs b) = length (denote_block b).
+  Proof.
+    destruct b; cbn [block_srcs denote_block];
+      [apply map_length|apply map_length|cbn [length]; rewrite !app_length, !map_length; reflexivity|apply map_length].
+  Qed.
+
   Lemma run_blocks d : forall m k evs secs name content igs cws tms inl cnt err,
-    in_text_mode m = false ->
     linked k secs {| A.sec_name := name; A.sec_content := content |} ->
     map ev_proj evs = doc_events d ->
+    (text_reached modes d m = true -> Forall2 (src_ok input) evs (doc_srcs d) /\ strips d) ->
     Forall block_ne d -> ablocks_ok find_iq unit_class x d m k = true ->
     tbl_wf igs -> tbl_wf cws ->
     refs_ok ci inherit_igr igs (doc_entries modes is_igr d m k) = true ->
@@ -1025,16 +1081,35 @@ Section Run.
                 (inline_count find_iq (A.x_inline x) modes d m (kcnt igs cws tms inl)) None cnt' err) /\
       pushed secs' cur' = secs ++ sections_of find_iq (A.x_inline x) modes d m name content cnt (kcnt igs cws tms inl).
   Proof.
-    induction d as [|b r IH]; intros m k evs secs name content igs cws tms inl cnt err Hm Hlk Hev Hne Hok Wi Wc Ri Rc Hc1 Hcb.
+    induction d as [|b r IH]; intros m k evs secs name content igs cws tms inl cnt err Hlk Hev Htx Hne Hok Wi Wc Ri Rc Hc1 Hcb.
     - destruct evs; [|discriminate]. cbn [doc_entries live_comps filter map table fold_left inline_count kcnt n_q]. rewrite app_nil_r.
       eexists _, _, _, _. split; [reflexivity|]. apply pushed_close.
     - unfold doc_events in Hev. cbn [map concat] in Hev. fold (doc_events r) in Hev.
       apply map_eq_app in Hev as (e1 & e2 & -> & He1 & He2).
+      assert (Hboth : text_reached modes (b :: r) m = true ->
+                (Forall2 (src_ok input) e1 (block_srcs b) /\
+                 (forall c, In c (block_comps b) -> A.strip_comments (unlex (print_comp c)) = written (print_comp c))) /\
+                (Forall2 (src_ok input) e2 (doc_srcs r) /\ strips r)).
+      { intro Ht. destruct (Htx Ht) as [Hsrc Hstrip].
+        unfold doc_srcs in Hsrc. cbn [map concat] in Hsrc. fold (doc_srcs r) in Hsrc.
+        apply EditTextSim.Forall2_app_len in Hsrc as [Hs1 Hs2];
+          [|rewrite block_srcs_length, <- He1, map_length; reflexivity].
+        split; split; auto.
+        - intros c Hc. apply Hstrip. cbn [flat_map]. apply in_or_app. left. exact Hc.
+        - intros c Hc. apply Hstrip. cbn [flat_map]. apply in_or_app. right. exact Hc. }
+      assert (Htx1 : in_text_mode m = true -> Forall2 (src_ok input) e1 (block_srcs b) /\
+                (forall c, In c (block_comps b) -> A.strip_comments (unlex (print_comp c)) = written (print_comp c))).
+      { intro Ht. apply Hboth. cbn [text_reached]. rewrite Ht. reflexivity. }
+      assert (Htx2 : text_reached modes r (next_mode modes m b) = true -> Forall2 (src_ok input) e2 (doc_srcs r) /\ strips r).
+      { intro Ht. apply Hboth. cbn [text_reached]. rewrite Ht. apply orb_true_r. }
+      clear Hboth.
       inversion Hne as [|? ? Hb Hne']; subst. cbn [ablocks_ok] in Hok. apply andb_true_iff in Hok as [Hbok Hok].
       unfold abstract_events. rewrite map_app. fold (abstract_events e1) (abstract_events e2). rewrite run_app.
-      cbn [live_comps doc_entries] in Ri, Rc |- *. rewrite Hm in Ri, Rc |- *.
+      cbn [live_comps doc_entries] in Ri, Rc |- *.
+      assert (Hnil : forall T, (if in_text_mode m then @nil T else @nil T) = []) by (intro T; destruct (in_text_mode m); reflexivity).
       rewrite nsteps_cons in Hcb. pose proof (linked_next m k b secs name content Hlk) as Hlk'.
-      destruct b as [key v | n1 nm n2 trail | items | ls]; cbn [denote_block block_comps app filter map] in He1, Ri, Rc |- *.
+      destruct b as [key v | n1 nm n2 trail | items | ls]; cbn [denote_block block_comps app filter map] in He1, Ri, Rc |- *;
+        rewrite ?(Hnil entry) in Ri, Rc |- *; rewrite ?(Hnil cspec); cbn [app] in Ri, Rc |- *.
       + (* `>>` entry: a mode switch or nothing *)
         destruct e1 as [|e [|? ?]]; try discriminate. cbn [map] in He1. injection He1 as He.
         destruct (proj_meta e _ _ He) as (tk & tv & -> & Hk & Hv).
@@ -1042,7 +1117,7 @@ Section Run.
         cbn [ablock_ok] in Hbok.
         rewrite (metadata_sim m secs _ igs cws tms inl None cnt err tk tv key v Hk Hv Hbok). cbn [obind].
         cbn [sections_of inline_count].
-        apply (IH _ k e2 secs name content igs cws tms inl cnt err (next_mode_no_text m _ Hm Hbok) Hlk' He2 Hne' Hok Wi Wc Ri Rc Hc1).
+        apply (IH _ k e2 secs name content igs cws tms inl cnt err Hlk' He2 Htx2 Hne' Hok Wi Wc Ri Rc Hc1).
         cbn [Nat.add] in Hcb. exact Hcb.
       + (* section line *)
         rewrite (next_mode_other modes m (BkSection n1 nm n2 trail) I) in *.
@@ -1054,7 +1129,7 @@ Section Run.
           with (pushed secs {| A.sec_name := name; A.sec_content := content |}).
         rewrite pushed_close.
         destruct (IH m _ e2 (secs ++ close_section name content) (Some (clean (toks_text nm))) [] igs cws tms inl 1%nat err
-                    Hm Hlk' He2 Hne' Hok Wi Wc Ri Rc (le_n 1)) as (m' & secs' & cur' & cnt' & Hrun & Hp).
+                    Hlk' He2 Htx2 Hne' Hok Wi Wc Ri Rc (le_n 1)) as (m' & secs' & cur' & cnt' & Hrun & Hp).
         { cbn [Nat.add] in Hcb. lia. }
         exists m', secs', cur', cnt'. split.
         * rewrite Hrun. cbn [inline_count]. rewrite (next_mode_other modes m (BkSection n1 nm n2 trail) I). reflexivity.
@@ -1067,6 +1142,34 @@ Section Run.
         apply map_eq_app in He1 as (em & ee & -> & Hem & Hee).
         destruct ee as [|ee [|? ?]]; try discriminate. cbn [map] in Hee. injection Hee as Hee.
         rewrite (proj_start es _ Hes), (proj_end ee _ Hee).
+        destruct (in_text_mode m) eqn:Hm.
+        { (* text mode: the block is a paragraph, its components are copied as written *)
+          destruct (Htx1 eq_refl) as [Hs1 Hstrip1].
+          cbn [block_srcs] in Hs1. inversion Hs1 as [|? ? ? ? _ Hs1']; subst.
+          apply EditTextSim.Forall2_app_len in Hs1' as [Hsm _]; [|rewrite map_length, <- (map_length ev_proj em), Hem, map_length; reflexivity].
+          cbn [app] in Ri, Rc |- *.
+          assert (Edm : md_define m = A.DMText) by (unfold in_text_mode in Hm; destruct (md_define m); try discriminate; reflexivity).
+          cbn [abstract_events map abstract_event A.run abstract_kind]. unfold A.step at 1. aproj. asetters. rewrite dm_text, Hm. cbn [obind].
+          rewrite map_app. fold (abstract_events em). rewrite run_app.
+          rewrite (run_items_text m items em [] secs _ igs cws tms inl cnt err Hm Hem Hsm Hstrip1).
+          cbn [obind app map A.run abstract_event abstract_kind].
+          unfold A.step at 1. aproj. unfold A.end_block. aproj. rewrite dm_text, Hm, orb_true_r. unfold A.finish_block, A.skipped.
+          cbn [A.cfgF A.skip_empty_text A.is_step A.is_text andb negb orb]. aproj. rewrite orb_true_r, andb_true_r.
+          destruct Hlk' as [_ [_ Hlkt]]. specialize (Hlkt eq_refl). unfold text_content in Hlkt.
+          destruct (items_written items) as [|c0 tx] eqn:Ew; cbn [E.is_nil is_nil negb] in Hlkt |- *; asetters; cbn [obind A.sec_name A.sec_content].
+          - rewrite app_nil_r in Hlkt.
+            destruct (IH m _ e2 secs name content igs cws tms inl cnt err Hlkt He2 Htx2 Hne' Hok Wi Wc Ri Rc Hc1)
+              as (m' & secs' & cur' & cnt' & Hrun2 & Hp); [lia|].
+            exists m', secs', cur', cnt'. split.
+            + rewrite Hrun2. cbn [inline_count]. rewrite (next_mode_other modes m (BkStep items) I), Edm. rewrite ?app_nil_r. reflexivity.
+            + rewrite Hp. cbn [sections_of]. rewrite (next_mode_other modes m (BkStep items) I), Edm, Ew. unfold text_content. cbn [is_nil].
+              rewrite app_nil_r. reflexivity.
+          - destruct (IH m _ e2 secs name (content ++ [A.CText (c0 :: tx)]) igs cws tms inl cnt err Hlkt He2 Htx2 Hne' Hok Wi Wc Ri Rc Hc1)
+              as (m' & secs' & cur' & cnt' & Hrun2 & Hp); [lia|].
+            exists m', secs', cur', cnt'. split.
+            + rewrite Hrun2. cbn [inline_count]. rewrite (next_mode_other modes m (BkStep items) I), Edm. rewrite ?app_nil_r. reflexivity.
+            + rewrite Hp. cbn [sections_of]. rewrite (next_mode_other modes m (BkStep items) I), Edm, Ew. reflexivity. }
+        cbn [orb] in Hbok.
         rewrite refs_ok_app in Ri, Rc. apply andb_true_iff in Ri as [Ri1 Ri2]. apply andb_true_iff in Rc as [Rc1 Rc2].
         cbn [abstract_events map abstract_event A.run abstract_kind]. unfold A.step at 1. aproj. asetters. rewrite dm_text, Hm. cbn [obind].
         rewrite map_app. fold (abstract_events em). rewrite run_app.
@@ -1085,7 +1188,7 @@ Section Run.
           fold K' in H1, H2, H3.
           unfold kcnt, igs', cws', tms'. rewrite !table_length, app_length, !map_length. cbn [kcnt n_i n_c n_t] in H1, H2, H3.
           rewrite <- H1, <- H2, <- H3. destruct K'; reflexivity. }
-        destruct Hlk' as [Hlkc Hlkn].
+        destruct Hlk' as [Hlkc [Hlkn _]].
         destruct (mode_cases m Hm) as [[Ecm Edm]|[Ecm Edm]]; rewrite Ecm.
         * (* components mode: the block is a list of components, no step *)
           cbn [negb orb]. rewrite andb_false_r. asetters. cbn [obind].
@@ -1095,7 +1198,7 @@ Section Run.
           rewrite Eq in *.
           assert (EC : comps_cnt items (kcnt igs cws tms inl) = kcnt igs' cws' tms' inl).
           { rewrite <- EK. unfold K'. rewrite Ecm. symmetry. apply mitems_comps. }
-          destruct (IH m _ e2 secs name content igs' cws' tms' inl cnt err Hm (Hlkc Ecm) He2 Hne' Hok Wi' Wc' Ri2 Rc2 Hc1)
+          destruct (IH m _ e2 secs name content igs' cws' tms' inl cnt err (Hlkc Ecm) He2 Htx2 Hne' Hok Wi' Wc' Ri2 Rc2 Hc1)
             as (m' & secs' & cur' & cnt' & Hrun2 & Hp); [lia|].
           exists m', secs', cur', cnt'. split.
           -- rewrite Hrun2. cbn [inline_count]. rewrite (next_mode_other modes m (BkStep items) I), Edm, EC.
@@ -1108,7 +1211,7 @@ Section Run.
           assert (ES : bitems m items (kcnt igs cws tms inl) = step_items find_iq (A.x_inline x) items (kcnt igs cws tms inl))
             by (rewrite Ecm; apply mitems_step).
           destruct (IH m _ e2 secs name (content ++ [A.CStep {| A.st_items := IT; A.st_number := cnt |}])
-                      igs' cws' tms' (n_q K') (S cnt) err Hm (Hlkn Ecm Hm _) He2 Hne' Hok Wi' Wc' Ri2 Rc2)
+                      igs' cws' tms' (n_q K') (S cnt) err (Hlkn Ecm eq_refl _) He2 Htx2 Hne' Hok Wi' Wc' Ri2 Rc2)
             as (m' & secs' & cur' & cnt' & Hrun2 & Hp); [lia|lia|].
           exists m', secs', cur', cnt'. split.
           -- rewrite Hrun2. cbn [inline_count]. rewrite (next_mode_other modes m (BkStep items) I).
@@ -1132,13 +1235,15 @@ Section Run.
         apply map_eq_app in He1 as (em & ee & -> & Hem & Hee).
         destruct ee as [|ee [|? ?]]; try discriminate. cbn [map] in Hee. injection Hee as Hee.
         rewrite (proj_start es _ Hes), (proj_end ee _ Hee).
-        cbn [abstract_events map abstract_event A.run abstract_kind]. unfold A.step at 1. aproj. asetters. rewrite dm_text, Hm. cbn [obind].
+        cbn [abstract_events map abstract_event A.run abstract_kind]. unfold A.step at 1. aproj. asetters. rewrite dm_text.
+        replace (if in_text_mode m then A.BText [] else A.BText []) with (A.BText []) by (destruct (in_text_mode m); reflexivity).
+        cbn [obind].
         rewrite map_app. fold (abstract_events em). rewrite run_app.
         rewrite (run_tlines m ls em [] secs _ igs cws tms inl cnt err Hem). cbn [obind app map A.run abstract_event abstract_kind].
         unfold A.step at 1. aproj. unfold A.end_block. aproj. cbn [E.block_kind_eqb orb]. unfold A.finish_block, A.skipped.
         cbn [A.cfgF A.skip_empty_text A.is_step A.is_text andb negb orb]. aproj.
         rewrite (is_nil_ne _ Hb). rewrite orb_true_r. cbn [negb andb]. asetters. cbn [obind A.sec_name A.sec_content].
-        destruct (IH m _ e2 secs name (content ++ [A.CText (tlines_text ls)]) igs cws tms inl cnt err Hm (Hlk' _) He2 Hne' Hok Wi Wc Ri Rc Hc1)
+        destruct (IH m _ e2 secs name (content ++ [A.CText (tlines_text ls)]) igs cws tms inl cnt err (Hlk' _) He2 Htx2 Hne' Hok Wi Wc Ri Rc Hc1)
           as (m' & secs' & cur' & cnt' & Hrun2 & Hp); [cbn [Nat.add] in Hcb; exact Hcb|].
         exists m', secs', cur', cnt'. split.
         * rewrite Hrun2. cbn [inline_count]. rewrite (next_mode_other modes m (BkText ls) I). reflexivity.
@@ -1158,54 +1263,65 @@ Proof.
 Qed.
 
 Lemma analyse_from ci yaml_ok find_iq unit_class input x cfg d evs err :
-  map ev_proj evs = doc_events d -> Forall (fun b => block_ok cfg b = true) d ->
+  map ev_proj evs = doc_events d ->
+  (text_reached (A.x_modes x) d mode0 = true -> Forall2 (src_ok input) evs (doc_srcs d) /\ strips d) ->
+  Forall (fun b => block_ok cfg b = true) d ->
   adoc_ok ci find_iq unit_class x d = true ->
   obind (A.run ci yaml_ok find_iq unit_class input x A.cfgF
            (A.Build_astate [] {| A.sec_name := None; A.sec_content := [] |} [] [] [] 0%nat A.DMAll A.DupNew None 1%nat err false)
            (abstract_events evs)) (fun s => Done (A.output s, A.is_valid s))
   = Done (Some (denote ci find_iq (A.x_inline x) (A.x_modes x) d), negb err).
 Proof.
-  intros Hev Hbl Hok. unfold adoc_ok in Hok. apply andb_true_iff in Hok as [Hok Hn]. apply andb_true_iff in Hok as [Hok Rc].
+  intros Hev Htx Hbl Hok. unfold adoc_ok in Hok. apply andb_true_iff in Hok as [Hok Hn]. apply andb_true_iff in Hok as [Hok Rc].
   apply andb_true_iff in Hok as [Hok Ri]. apply N.ltb_lt in Hn.
   assert (Hne : Forall block_ne d) by (eapply Forall_impl; [|exact Hbl]; intros b; apply block_ok_ne).
   assert (Hlk : linked ictx0 [] {| A.sec_name := None; A.sec_content := [] |}) by (repeat split).
   destruct (run_blocks ci yaml_ok find_iq unit_class input x d mode0 ictx0 evs [] None [] [] [] [] 0%nat 1%nat err
-              eq_refl Hlk Hev Hne Hok (Forall_nil _) (Forall_nil _) Ri Rc (le_n 1)) as (m' & secs' & cur' & cnt' & Hrun & Hp); [lia|].
+              Hlk Hev Htx Hne Hok (Forall_nil _) (Forall_nil _) Ri Rc (le_n 1)) as (m' & secs' & cur' & cnt' & Hrun & Hp); [lia|].
   change (A.Build_astate [] {| A.sec_name := None; A.sec_content := [] |} [] [] [] 0%nat A.DMAll A.DupNew None 1%nat err false)
     with (A.Build_astate [] {| A.sec_name := None; A.sec_content := [] |} [] [] [] 0%nat (md_define mode0) (dup_of (md_dupref mode0)) None 1%nat err false).
   rewrite Hrun. cbn [obind]. unfold A.output, A.is_valid. aproj. cbn [negb andb]. do 3 f_equal.
   unfold denote. f_equal. exact Hp.
 Qed.
 
+(* [input] is the source text given to the collector; in text mode it copies from it the range of each component:
+   [src_ok input] says that range is the printed component (Proofs/RoundTripSpans.v), [strips] that the copy without
+   comments is the printed component without its comment tokens *)
 Theorem analyse_denote ci yaml_ok find_iq unit_class input x cfg d evs :
-  map ev_proj evs = doc_events d -> Forall (fun b => block_ok cfg b = true) d ->
+  map ev_proj evs = doc_events d ->
+  (text_reached (A.x_modes x) d mode0 = true -> Forall2 (src_ok input) evs (doc_srcs d) /\ strips d) ->
+  Forall (fun b => block_ok cfg b = true) d ->
   adoc_ok ci find_iq unit_class x d = true ->
   A.analyse ci yaml_ok find_iq unit_class input x A.cfgF (abstract_events evs)
   = Done (Some (denote ci find_iq (A.x_inline x) (A.x_modes x) d), true).
 Proof.
-  intros Hev Hbl Hok. exact (analyse_from ci yaml_ok find_iq unit_class input x cfg d evs false Hev Hbl Hok).
+  intros Hev Htx Hbl Hok. exact (analyse_from ci yaml_ok find_iq unit_class input x cfg d evs false Hev Htx Hbl Hok).
 Qed.
 
 (* with a front matter: the YAML event first; the recipe is valid when serde_yaml accepts the text *)
 Theorem analyse_denote_fm ci yaml_ok find_iq unit_class input x cfg y d evs :
-  map ev_proj evs = fm_doc_events y d -> Forall (fun b => block_ok cfg b = true) d ->
+  map ev_proj evs = fm_doc_events y d ->
+  (text_reached (A.x_modes x) d mode0 = true -> Forall2 (src_ok input) evs (None :: doc_srcs d) /\ strips d) ->
+  Forall (fun b => block_ok cfg b = true) d ->
   adoc_ok ci find_iq unit_class x d = true ->
   A.analyse ci yaml_ok find_iq unit_class input x A.cfgF (abstract_events evs)
   = Done (Some (denote ci find_iq (A.x_inline x) (A.x_modes x) d), yaml_ok y).
 Proof.
-  intros Hev Hbl Hok. unfold fm_doc_events in Hev. destruct evs as [|e evs]; [discriminate|]. cbn [map] in Hev.
+  intros Hev Htx Hbl Hok. unfold fm_doc_events in Hev. destruct evs as [|e evs]; [discriminate|]. cbn [map] in Hev.
   injection Hev as He Hev. destruct e; try discriminate. cbn [ev_proj] in He. injection He as He.
+  assert (Htx' : text_reached (A.x_modes x) d mode0 = true -> Forall2 (src_ok input) evs (doc_srcs d) /\ strips d).
+  { intro Ht. destruct (Htx Ht) as [Hsrc Hstrip]. inversion Hsrc as [|? ? ? ? _ Hsrc']; subst. split; assumption. }
   unfold A.analyse, abstract_events. cbn [map abstract_event A.run]. unfold A.step at 1. cbn [A.init A.a_halted obind].
   unfold A.add_error. cbn [A.init A.a_sections A.a_cur A.a_ingredients A.a_cookware A.a_timers A.a_inline A.a_define
                            A.a_duplicate A.a_block A.a_counter A.a_errors A.a_halted orb].
-  rewrite ParserShape.text_str_abstract, He. fold (abstract_events evs).
-  rewrite (analyse_from ci yaml_ok find_iq unit_class input x cfg d evs (negb (yaml_ok y)) Hev Hbl Hok).
-  rewrite negb_involutive. reflexivity.
+  rewrite ParserShape.text_str_abstract. fold (abstract_events evs).
+  rewrite (analyse_from ci yaml_ok find_iq unit_class input x cfg d evs (negb (yaml_ok (text_str t))) Hev Htx' Hbl Hok).
+  rewrite negb_involutive, He. reflexivity.
 Qed.
 
 (* ---------------------------------------------------------------- from the source text *)
 From CL Require Import Proofs.RoundTripPrintDoc.
-From CL Require Proofs.ParseTotal.
+From CL Require Proofs.ParseTotal Proofs.MaskProofs Proofs.RoundTripDoc.
 
 Lemma blocks_ok_forall cfg d : forall tp n, blocks_ok cfg d tp n = true -> Forall (fun b => block_ok cfg b = true) d.
 Proof.
@@ -1214,28 +1330,71 @@ Proof.
   constructor; [exact H|exact (IH tp (S n) Hr)].
 Qed.
 
-(* print, then the whole pipeline of CooklangParser::parse (ParseTotal.parse_model = analyse . bridge . events) *)
+(* a component of the document is a part of the printed token list *)
+Lemma items_split c items : In c (item_comps items) -> exists a z, print_items items = a ++ print_comp c ++ z.
+Proof.
+  induction items as [|[t|c0] r IH]; cbn [item_comps flat_map app]; intro H; [destruct H| |].
+  - destruct (IH H) as (a & z & E). exists (t ++ a), z. rewrite RoundTripDoc.print_items_cons, E. cbn [print_item]. rewrite app_assoc. reflexivity.
+  - destruct H as [<-|H].
+    + exists [], (print_items r). rewrite RoundTripDoc.print_items_cons. reflexivity.
+    + destruct (IH H) as (a & z & E). exists (print_comp c0 ++ a), z. rewrite RoundTripDoc.print_items_cons, E. cbn [print_item]. rewrite app_assoc. reflexivity.
+Qed.
+
+Lemma blocks_split b d tp : forall n, In b d -> exists a z, print_blocks d tp n = a ++ print_block b ++ z.
+Proof.
+  induction d as [|b0 r IH]; intros n H; [destruct H|]. cbn [print_blocks]. destruct H as [<-|H].
+  - exists []. eexists. reflexivity.
+  - destruct (open_end r tp) eqn:Eo.
+    + unfold open_end in Eo. destruct r; [destruct H|discriminate].
+    + destruct (IH (S n) H) as (a & z & E). rewrite E.
+      exists (print_block b0 ++ dt_nl tp n :: print_elines (dt_sep tp n) ++ a), z.
+      rewrite <- !app_assoc. cbn [app]. rewrite <- !app_assoc. reflexivity.
+Qed.
+
+Lemma comp_adjacent U d tp c :
+  adjacent_ok U (print_doc_toks d tp) = true -> In c (flat_map block_comps d) -> adjacent_ok U (print_comp c) = true.
+Proof.
+  intros Hadj Hc. apply in_flat_map in Hc as (b & Hb & Hc).
+  destruct b as [| |items|]; try destruct Hc. cbn [block_comps] in Hc.
+  destruct (blocks_split _ d tp 0%nat Hb) as (a & z & E). destruct (items_split c items Hc) as (a' & z' & E').
+  unfold print_doc_toks in Hadj. rewrite E in Hadj. cbn [print_block] in Hadj. rewrite E' in Hadj.
+  apply adjacent_suffix in Hadj. apply adjacent_suffix in Hadj. rewrite <- !app_assoc in Hadj.
+  apply adjacent_suffix in Hadj. apply adjacent_prefix in Hadj. exact Hadj.
+Qed.
+
+Lemma doc_strips U d tp :
+  (forall c, MaskProofs.special c = true -> is_word_char U c = false /\ is_lex_ws U c = false) ->
+  adjacent_ok U (print_doc_toks d tp) = true -> strips d.
+Proof. intros Hsp Hadj c Hc. apply (strip_printed U Hsp). exact (comp_adjacent U d tp c Hadj Hc). Qed.
+
+(* print, then the whole pipeline of CooklangParser::parse (ParseTotal.parse_model = analyse . bridge . events).
+   [Hsp]: the characters `-`, `[`, backslash break words and blanks in the classification U (true of the
+   implementation's: Proofs/MaskGen.v); needed for text mode only, where the collector re-lexes what it copies *)
 Theorem parse_print U cfg ci yaml_ok find_iq unit_class x d tp :
+  (forall c, MaskProofs.special c = true -> is_word_char U c = false /\ is_lex_ws U c = false) ->
   doc_ok U cfg d tp = true -> adoc_ok ci find_iq unit_class x d = true ->
   ParseTotal.parse_model U cfg ci yaml_ok find_iq unit_class x (print_doc d tp)
   = Done (Some (denote ci find_iq (A.x_inline x) (A.x_modes x) d), true).
 Proof.
-  intros Hd Ha. destruct (events_print_doc U cfg d tp Hd) as (evs & Hev & Hp).
+  intros Hsp Hd Ha. destruct (events_print_doc_src U cfg d tp Hd) as (evs & Hev & Hp & Hsrc).
   unfold ParseTotal.parse_model. rewrite Hev. cbn [obind].
-  apply (analyse_denote ci yaml_ok find_iq unit_class (print_doc d tp) x cfg d evs Hp); [|exact Ha].
-  unfold doc_ok in Hd. apply andb_true_iff in Hd as [Hd _]. unfold body_ok in Hd. apply andb_true_iff in Hd as [_ Hb].
+  unfold doc_ok in Hd. apply andb_true_iff in Hd as [Hd _]. unfold body_ok in Hd. apply andb_true_iff in Hd as [Hd Hb].
+  apply andb_true_iff in Hd as [Hd _]. apply andb_true_iff in Hd as [_ Hadj].
+  apply (analyse_denote ci yaml_ok find_iq unit_class (print_doc d tp) x cfg d evs Hp (fun _ => conj Hsrc (doc_strips U d tp Hsp Hadj))); [|exact Ha].
   exact (blocks_ok_forall cfg d tp 0%nat Hb).
 Qed.
 
 Theorem parse_print_fm U cfg ci yaml_ok find_iq unit_class x y ft d tp :
+  (forall c, MaskProofs.special c = true -> is_word_char U c = false /\ is_lex_ws U c = false) ->
   fm_doc_ok U cfg y ft d tp = true -> adoc_ok ci find_iq unit_class x d = true ->
   ParseTotal.parse_model U cfg ci yaml_ok find_iq unit_class x (print_fm_doc y ft d tp)
   = Done (Some (denote ci find_iq (A.x_inline x) (A.x_modes x) d), yaml_ok y).
 Proof.
-  intros Hd Ha. destruct (events_print_fm_doc U cfg y ft d tp Hd) as (evs & Hev & Hp).
+  intros Hsp Hd Ha. destruct (events_print_fm_doc_src U cfg y ft d tp Hd) as (evs & Hev & Hp & Hsrc).
   unfold ParseTotal.parse_model. rewrite Hev. cbn [obind].
-  apply (analyse_denote_fm ci yaml_ok find_iq unit_class (print_fm_doc y ft d tp) x cfg y d evs Hp); [|exact Ha].
-  unfold fm_doc_ok in Hd. apply andb_true_iff in Hd as [_ Hd]. unfold body_ok in Hd. apply andb_true_iff in Hd as [_ Hb].
+  unfold fm_doc_ok in Hd. apply andb_true_iff in Hd as [_ Hd]. unfold body_ok in Hd. apply andb_true_iff in Hd as [Hd Hb].
+  apply andb_true_iff in Hd as [Hd _]. apply andb_true_iff in Hd as [_ Hadj].
+  apply (analyse_denote_fm ci yaml_ok find_iq unit_class (print_fm_doc y ft d tp) x cfg y d evs Hp (fun _ => conj Hsrc (doc_strips U d tp Hsp Hadj))); [|exact Ha].
   exact (blocks_ok_forall cfg d tp 0%nat Hb).
 Qed.
 
